@@ -14,7 +14,7 @@ def plan(tier):
         I.append(inst(f"reflection_across[n=2,kernel-case={k}]", 'harness.c15', 'reflection', dict(n=2), opts=dict(fix=fx), weight=80, timeout_s=1500))
     for perm in ((0,) if q else range(6)):
         fx = {"eig_perm": perm, "_k1_w": 0, "_k1_e0": 1, "_k1_e1": 1}
-        I.append(inst(f"from_reflection[n=2,eigenvalue-order={perm}]", 'harness.c15', 'from_reflection', dict(n=2), opts=dict(fix=fx), weight=300, timeout_s=2400))
+        I.append(inst(f"from_reflection[n=2,eigenvalue-order={perm}]", 'harness.c15', 'from_reflection', dict(n=2), opts=dict(fix=fx), weight=300, timeout_s=1500))
     return dict(
         instances=I,
         explanation=("bounded symbolic verification with a nondeterministic eigen-decomposition stub: the isometry is built as C L C^-1 (L standard "
